@@ -123,10 +123,11 @@ theorem misbehaving_is_sticky (c : Client) (t : TowerId) (sm : Summary) (st : TS
 
 /-- … and a manual retry of a misbehaving tower is refused -/
 theorem misbehaving_not_retried (s : St) (t : TowerId) (sm : Summary)
-    (ht : s.client.towers t = some sm) (hst : sm.status = .misbehaving) (hidle : s.idle t = false) :
+    (ht : s.client.towers t = some sm) (hst : sm.status = .misbehaving) (hidle : s.idle t = false)
+    (hrun : s.running t = false) :
     s.manualRetry t = (s, .errStatus) := by
   unfold St.manualRetry St.status
-  simp [ht, hst, hidle, TStatus.isRetryable]
+  simp [ht, hst, hidle, hrun, TStatus.isRetryable]
 
 /-- **every reply has a handler that leaves the client consistent** (hence alive: no store
 constraint violated, no poisoned state): on the notification path, … -/
